@@ -49,11 +49,15 @@ pub struct WalkCfg {
     pub filter_char: Option<char>,
     pub ignore_files: bool,
     pub hidden: bool,
+    /// Override glob (command-line style), e.g. "!d1/" or "*.x".
+    pub override_glob: Option<String>,
+    /// Select only files of type "xt" (defined as *.x); directories always pass.
+    pub type_x: bool,
 }
 
 impl Default for WalkCfg {
     fn default() -> WalkCfg {
-        WalkCfg { threads: 2, max_depth: None, max_filesize: None, follow_links: false, same_file_system: false, filter_char: None, ignore_files: false, hidden: false }
+        WalkCfg { threads: 2, max_depth: None, max_filesize: None, follow_links: false, same_file_system: false, filter_char: None, ignore_files: false, hidden: false, override_glob: None, type_x: false }
     }
 }
 
@@ -63,6 +67,7 @@ impl WalkCfg {
             "threads": self.threads, "max_depth": self.max_depth, "max_filesize": self.max_filesize,
             "follow_links": self.follow_links, "same_file_system": self.same_file_system,
             "filter_char": self.filter_char.map(|c| c.to_string()), "ignore_files": self.ignore_files, "hidden": self.hidden,
+            "override_glob": self.override_glob, "type_x": self.type_x,
         })
     }
     pub fn from_json(v: &Value) -> WalkCfg {
@@ -75,6 +80,8 @@ impl WalkCfg {
             filter_char: v["filter_char"].as_str().and_then(|s| s.chars().next()),
             ignore_files: v["ignore_files"].as_bool().unwrap_or(false),
             hidden: v["hidden"].as_bool().unwrap_or(false),
+            override_glob: v["override_glob"].as_str().map(String::from),
+            type_x: v["type_x"].as_bool().unwrap_or(false),
         }
     }
 }
